@@ -1,10 +1,20 @@
-//! C15 — stub (monitor not written yet)
-use serde_json::Value;
+//! C15 — package type names map one-to-one, case-insensitively.
+//!
+//! Oracle: the table R8 of (variant, lower-case name) and the equations of the statement.
 
-use super::Fail;
-use crate::obs::{Ctx, Tier};
+use std::str::FromStr;
 
-pub const RULE: &str = "";
+use purl::{PackageType, Purl, PurlShape};
+use serde_json::{json, Value};
+
+use super::{str_field, Fail};
+use crate::exec::ALL_TYPES;
+use crate::gen;
+use crate::model::ascii_lower;
+use crate::obs::{guard, Ctx, Out, Tier};
+use crate::rng::fnv;
+
+pub const RULE: &str = "a case is one string given to PackageType::from_str (or one variant whose spellings are compared); non-trivial = a case variant of a known name, a one-edit neighbour, a look-alike, a padded form or another spec type name; distinct by hash of the string";
 
 /// Every other type name of the PURL spec (none of them is built in).
 pub const SPEC_OTHER_TYPES: &[&str] = &[
@@ -13,12 +23,231 @@ pub const SPEC_OTHER_TYPES: &[&str] = &[
     "swift",
 ];
 
-pub fn requirements(_tier: Tier) -> Vec<(&'static str, u64)> {
-    vec![("not-implemented", 1)]
+pub fn requirements(tier: Tier) -> Vec<(&'static str, u64)> {
+    let space: u64 = if tier == Tier::Quick { (0..=5u32).map(|l| 23u64.pow(l)).sum::<u64>() + 15u64.pow(6) } else { (0..=6u32).map(|l| 23u64.pow(l)).sum() };
+    vec![
+        ("exhaustive:case-variants", 192),
+        ("exhaustive:case-variants-accepted", 192),
+        ("exhaustive:short-strings", space),
+        ("exhaustive:one-edit-neighbours", 3_000),
+        ("variants-spellings-agree", 7),
+        ("other-spec-types-refused", 25),
+        ("padded-forms-refused", 100),
+        ("random-strings", 10_000),
+        ("accepted-in-enumerated-space", 7),
+    ]
 }
 
-pub fn run(_ctx: &mut Ctx) {}
+/// R8, by variant (not through the library).
+pub fn r8(t: PackageType) -> &'static str {
+    match t {
+        PackageType::Cargo => "cargo",
+        PackageType::Gem => "gem",
+        PackageType::Golang => "golang",
+        PackageType::Maven => "maven",
+        PackageType::Npm => "npm",
+        PackageType::NuGet => "nuget",
+        PackageType::PyPI => "pypi",
+        _ => "?",
+    }
+}
 
-pub fn replay(_monitor: &str, _case: &Value) -> Result<Option<Fail>, String> {
-    Err("not implemented".into())
+/// Whatever parses to a type equals that type's name once ASCII-lower-cased; names in any
+/// letter case parse to their type.
+pub fn judge_str(s: &str) -> (bool, Option<Fail>) {
+    let got = guard("PackageType::from_str", || PackageType::from_str(s));
+    let expected = ALL_TYPES.iter().copied().find(|t| r8(*t) == ascii_lower(s));
+    match (got, expected) {
+        (Out::Panic(m), _) => (false, Some(Fail::tagged("panicked", m.clone(), format!("PackageType::from_str({s:?}) panicked: {m}")))),
+        (Out::Ok(Ok(t)), Some(e)) if t == e => (true, None),
+        (Out::Ok(Ok(t)), Some(e)) => (true, Some(Fail::tagged("wrong-variant", r8(e), format!("{s:?} parsed to {t:?}, expected {e:?}")))),
+        (Out::Ok(Ok(t)), None) => (true, Some(Fail::tagged("foreign-string-accepted", r8(t), format!("{s:?} is taken for {t:?} although it is not a case variant of {:?}", r8(t))))),
+        (Out::Ok(Err(_)), Some(e)) => (false, Some(Fail::tagged("case-variant-refused", r8(e), format!("{s:?} is a case variant of {:?} but was refused", r8(e))))),
+        (Out::Ok(Err(_)), None) => (false, None),
+        (Out::Err(_), _) => unreachable!(),
+    }
+}
+
+/// All spellings of one variant agree on the lower-case name.
+pub fn judge_variant(t: PackageType) -> Option<Fail> {
+    let want = r8(t);
+    let b = Purl::builder(t, "n").with_namespace("g");
+    let in_purl = match crate::obs::build(b) {
+        Out::Ok(p) => p.to_string(),
+        o => return Some(Fail::tagged("build-failed", want, format!("building a {want} PURL: {}", o.kind()))),
+    };
+    let serde_form = serde_json::to_string(&t).unwrap_or_else(|e| format!("<{e}>"));
+    let spellings: [(&str, String); 7] = [
+        ("name()", t.name().to_string()),
+        ("Display", t.to_string()),
+        ("AsRef<str>", AsRef::<str>::as_ref(&t).to_string()),
+        ("<&str>::from", <&'static str>::from(t).to_string()),
+        ("PurlShape::package_type()", t.package_type().into_owned()),
+        ("type in PURL string", in_purl.strip_prefix("pkg:").and_then(|r| r.split('/').next()).unwrap_or("").to_string()),
+        ("serde", serde_form.trim_matches('"').to_string()),
+    ];
+    for (how, s) in &spellings {
+        if s != want {
+            return Some(Fail::tagged("spelling-differs", format!("{want}:{how}"), format!("{t:?}: {how} gives {s:?}, the name is {want:?}")));
+        }
+    }
+    match serde_json::from_str::<PackageType>(&format!("\"{want}\"")) {
+        Ok(x) if x == t => {},
+        o => return Some(Fail::tagged("serde-name-not-read-back", want, format!("serde_json::from_str({want:?}) = {o:?}"))),
+    }
+    None
+}
+
+fn one(ctx: &mut Ctx, s: &str, counter: &'static str, in_space: bool) {
+    ctx.st.evaluations += 1;
+    ctx.st.count(counter);
+    let (accepted, f) = judge_str(s);
+    if accepted {
+        if in_space {
+            ctx.st.count("accepted-in-enumerated-space");
+        }
+        if counter == "exhaustive:case-variants" {
+            ctx.st.count("exhaustive:case-variants-accepted");
+        }
+    }
+    if counter != "exhaustive:short-strings" || accepted {
+        ctx.st.nontrivial(fnv(s.as_bytes()));
+    }
+    if let Some(f) = f {
+        ctx.st.violation("C15.names", f.signature("C15.names", s), f.detail, json!({"kind": "string", "input": s}));
+    }
+}
+
+const ALPHABET: [char; 23] =
+    ['c', 'a', 'r', 'g', 'o', 'e', 'm', 'l', 'n', 'v', 'p', 'u', 't', 'y', 'i', 'ſ', '\u{212A}', 'ı', 'İ', 'ｃ', 'ɡ', '\0', ' '];
+
+pub fn run(ctx: &mut Ctx) {
+    if ctx.worker == 0 {
+        for t in ALL_TYPES {
+            ctx.st.evaluations += 1;
+            match judge_variant(t) {
+                None => ctx.st.count("variants-spellings-agree"),
+                Some(f) => ctx.st.violation("C15.names", format!("C15.names:{}:{}", f.kind, f.tag), f.detail, json!({"kind": "variant", "name": r8(t)})),
+            }
+        }
+        // all 2^len case variants of the seven names
+        for t in ALL_TYPES {
+            let name = r8(t);
+            for bits in 0..(1u32 << name.len()) {
+                let s: String = name.chars().enumerate().map(|(i, c)| if bits >> i & 1 == 1 { c.to_ascii_uppercase() } else { c }).collect();
+                one(ctx, &s, "exhaustive:case-variants", false);
+                ctx.st.sample(|| json!({"input": s, "parses_to": name}));
+            }
+        }
+        for t in SPEC_OTHER_TYPES {
+            one(ctx, t, "other-spec-types-refused", false);
+            one(ctx, &t.to_ascii_uppercase(), "other-spec-types-refused", false);
+        }
+        // padded / prefixed / suffixed forms
+        for t in ALL_TYPES {
+            let n = r8(t);
+            for form in [
+                format!(" {n}"), format!("{n} "), format!("{n}\0"), format!("\0{n}"), format!("{n}x"), format!("x{n}"), format!("pkg:{n}"), format!("{n}/"), format!("{n}{n}"),
+                format!("{n}\n"), format!("\t{n}"), format!("{n}."), format!("{n}-"), format!("{n}+"), format!("{n}\u{301}"), format!("{}", &n[..n.len() - 1]), format!("{}", &n[1..]),
+                n.replace('a', "а"), n.replace('o', "ο"), n.replace('e', "е"), n.replace('p', "р"), n.replace('c', "ｃ"), n.replace('g', "ɡ"), n.replace('i', "ı"), n.replace('i', "İ"),
+                n.to_uppercase().replace('I', "İ"), n.replace('m', "ｍ"), n.replace('n', "ｎ"), String::new(),
+            ] {
+                if form != n {
+                    one(ctx, &form, "padded-forms-refused", false);
+                }
+            }
+        }
+        ctx.st.exhaustive.push(json!({"name": "all 2^len case variants of the seven names", "size": 192, "completed": true}));
+    }
+    // every string up to length N over the 23-symbol alphabet
+    // quick: length <= 5 over all 23 symbols plus length 6 over the 15 ASCII letters;
+    // thorough: length <= 6 over all 23 symbols
+    let quick = ctx.quick();
+    let mut idx = 0u64;
+    for len in 0..=6usize {
+        let base: u64 = if quick && len == 6 { 15 } else { 23 };
+        let total = base.pow(len as u32);
+        for j in 0..total {
+            idx += 1;
+            if !ctx.mine(idx) {
+                continue;
+            }
+            let mut s = String::new();
+            let mut rem = j;
+            for _ in 0..len {
+                s.push(ALPHABET[(rem % base) as usize]);
+                rem /= base;
+            }
+            one(ctx, &s, "exhaustive:short-strings", true);
+        }
+    }
+    if ctx.worker == 0 {
+        ctx.st.exhaustive.push(json!({"name": if quick { "every string of length <= 5 over the 15 letters of the names + {long s, Kelvin sign, dotless i, dotted I, full-width c, script g, NUL, space}, and every string of length 6 over the 15 letters" } else { "every string of length <= 6 over the 15 letters of the names + {long s, Kelvin sign, dotless i, dotted I, full-width c, script g, NUL, space}" }, "size": idx, "completed": true}));
+    }
+    // one-edit neighbours of every name (insert / delete / replace / transpose), alphabet incl. upper case
+    let mut edit_alpha: Vec<char> = ALPHABET.to_vec();
+    edit_alpha.extend("CARGOEMLNVPUTYIsSkK0-.+/".chars());
+    let mut idx = 0u64;
+    for t in ALL_TYPES {
+        let base: Vec<char> = r8(t).chars().collect();
+        let mut neigh: Vec<String> = Vec::new();
+        for i in 0..=base.len() {
+            for c in &edit_alpha {
+                let mut v = base.clone();
+                v.insert(i, *c);
+                neigh.push(v.iter().collect());
+            }
+        }
+        for i in 0..base.len() {
+            let mut v = base.clone();
+            v.remove(i);
+            neigh.push(v.iter().collect());
+            for c in &edit_alpha {
+                let mut v = base.clone();
+                v[i] = *c;
+                neigh.push(v.iter().collect());
+            }
+            if i + 1 < base.len() {
+                let mut v = base.clone();
+                v.swap(i, i + 1);
+                neigh.push(v.iter().collect());
+            }
+        }
+        for s in neigh {
+            idx += 1;
+            if ctx.mine(idx) {
+                one(ctx, &s, "exhaustive:one-edit-neighbours", false);
+            }
+        }
+    }
+    if ctx.worker == 0 {
+        ctx.st.exhaustive.push(json!({"name": "all one-edit neighbours (insert/delete/replace/transpose) of the seven names", "size": idx, "completed": true}));
+    }
+    let mut r = ctx.rng("c15");
+    for _ in 0..ctx.share(50_000, 2_000_000) {
+        let s = match r.below(3) {
+            0 => gen::mixed_string(&mut r, 0, 8, 50),
+            1 => {
+                let n = r8(*r.pick(&ALL_TYPES));
+                let mut cs: Vec<char> = n.chars().collect();
+                let i = r.below(cs.len());
+                cs[i] = crate::gen::hostile_char(&mut r);
+                cs.into_iter().collect()
+            },
+            _ => crate::spell::gen_type(&mut r),
+        };
+        one(ctx, &s, "random-strings", false);
+    }
+}
+
+pub fn replay(_monitor: &str, case: &Value) -> Result<Option<Fail>, String> {
+    match str_field(case, "kind")? {
+        "string" => Ok(judge_str(str_field(case, "input")?).1),
+        "variant" => {
+            let n = str_field(case, "name")?;
+            let t = ALL_TYPES.iter().copied().find(|t| r8(*t) == n).ok_or("unknown variant")?;
+            Ok(judge_variant(t))
+        },
+        o => Err(format!("unknown case kind {o}")),
+    }
 }
